@@ -18,13 +18,41 @@ Open Scope N_scope.
    the same sequence, and the representation invariant holds in every state reached, also the
    ones left behind by a panicking call (so the matrix never has zero rows or columns and its
    storage always has rows * columns elements).
-   `all_fit`: before each operation the element count is at most usize::MAX (true of every Vec;
-   Clone / transpose re-validate the size with checked_mul). *)
+   `all_fit`: before each operation the element count is at most usize::MAX.  Where it matters:
+   ONLY `retain` (through Clone), `transpose` and the non-square branch of `transpose_mut` look at
+   it — they rebuild the matrix with from_flat_row_major, whose checked_mul would refuse a size
+   above usize::MAX (the call would panic where the specification returns).  Where it could fail:
+   only after an insert_row(_with) / insert_column(_with) has grown a matrix beyond usize::MAX
+   elements, which no machine can reach (a Vec holds at most isize::MAX bytes; Vec::insert itself
+   panics with a capacity overflow first).  It is NOT needed for the invariant
+   (C11_invariant_unconditional) and it is implied by the invariant for every history without
+   insertions started from an allocated matrix (C11_all_fit_when_not_growing); C11_all_fit_bounded
+   gives the general sufficient condition (the specification's element count stays <= a bound
+   <= usize::MAX). *)
 Theorem C11_refines : forall (T : Type) (s : matrix T) (ops : list (op T)),
   Inv s -> all_fit (abs s) ops ->
   map abs_result (impl_trace s ops) = spec_trace (abs s) ops
   /\ Forall (fun r => Inv (fst r)) (impl_trace s ops).
 Proof. exact @history_refines. Qed.
+
+(* the invariant part needs no size hypothesis at all: in every state reached — also the ones
+   left behind by a panicking call — rows * columns = stored length, rows >= 1, columns >= 1 *)
+Theorem C11_invariant_unconditional : forall (T : Type) (ops : list (op T)) (s : matrix T),
+  Inv s -> Forall (fun r => Inv (fst r)) (impl_trace s ops).
+Proof. exact @trace_inv. Qed.
+
+(* `all_fit` is implied by the invariant when no operation of the history is an insertion and
+   the start is an allocated matrix (its Vec has at most usize::MAX elements) *)
+Theorem C11_all_fit_when_not_growing : forall (T : Type) (s : matrix T) (ops : list (op T)),
+  Inv s -> nlen (m_data s) <= usize_max -> forallb non_growing ops = true -> all_fit (abs s) ops.
+Proof. exact @all_fit_of_allocated. Qed.
+
+(* in general it is enough that the specification's element count stays within a bound *)
+Theorem C11_all_fit_bounded : forall (T : Type) (ops : list (op T)) (m : list (list T)) bound,
+  bound <= usize_max ->
+  (forall k, (k <= length ops)%nat -> nlen (concat (spec_run m (firstn k ops))) <= bound) ->
+  all_fit m ops.
+Proof. exact @all_fit_bound. Qed.
 
 (* the same for the state after the whole history *)
 Theorem C11_final_state : forall (T : Type) (s : matrix T) (ops : list (op T)),
@@ -104,16 +132,21 @@ Example C11_nonvacuous :
               OSet 1 1 0; OMapMutWithIndex (fun x i j => x + 10 * i + j)] in
   Inv s /\ all_fit (abs s) ops /\
   map snd (impl_trace s ops) = [true; false; true; true; true; true; true] /\
-  abs (impl_run s ops) = [[7; 3; 11; 8]; [18; 11; 21; 19]].
+  abs (impl_run s ops) = [[7; 3; 11; 8]; [18; 11; 21; 19]] /\
+  forallb non_growing [ORemoveColumn 1; OTranspose; ORetainMut (mkSlice2D SAll (SSingle 0)) : op N] = true.
 Proof.
-  cbv zeta. split; [|split; [|split]].
+  cbv zeta. split; [|split; [|split; [|split]]].
   - unfold Inv, nlen. cbn. repeat split; discriminate.
   - unfold all_fit, fits, nlen. vm_compute. repeat split; discriminate.
   - vm_compute. reflexivity.
   - vm_compute. reflexivity.
+  - reflexivity.
 Qed.
 
 Print Assumptions C11_refines.
+Print Assumptions C11_invariant_unconditional.
+Print Assumptions C11_all_fit_when_not_growing.
+Print Assumptions C11_all_fit_bounded.
 Print Assumptions C11_final_state.
 Print Assumptions C11_step.
 Print Assumptions C11_observations.
